@@ -263,6 +263,7 @@ let rule_name = function
   | R12_post_claim_scan_incomplete -> "post_claim_scan_incomplete"
   | R12_gap_wait_never_ends -> "gap_wait_never_ends" | R11_supervision_never_ends -> "supervision_never_ends"
   | R15_no_reply_no_timeout -> "no_reply_no_timeout"
+  | R06_no_backoff -> "no_backoff"
   | R15_asked_after_all_declined -> "asked_after_all_declined" | R15_not_passed_after_all_declined -> "not_passed_after_all_declined"
   | R15_passed_before_all_declined -> "passed_before_all_declined" | R15_cycle_after_hold_time -> "cycle_after_hold_time"
   | R13_low_prio_after_hold_time -> "low_prio_after_hold_time" | R13_second_cycle_after_hold_time -> "second_cycle_after_hold_time"
